@@ -79,6 +79,18 @@ Theorem C03_pretty_only_chooses_whitespace : forall margin es sz o cl, es <> [] 
                   Forall2 (fun e t => exists o' c', t = append_tree margin e o' c') es ts.
 Proof. exact pretty_only_chooses_whitespace. Qed.
 Print Assumptions C03_pretty_only_chooses_whitespace.
+(* (a') and a leaf of the layout tree (an atom, or a vector / array, which createTree renders into a buffer of its
+       own) is written as it is wherever it sits: offset, wrapping and the closing parentheses behind it play no
+       part, so white space that is CONTENT (inside a |symbol|, a string) is out of the layout's reach ... *)
+Theorem C03_leaf_position_independent : forall margin b o cl o' cl', b <> [] ->
+  append_tree margin (leaf_node b) o cl = append_tree margin (leaf_node b) o' cl'.
+Proof. exact leaf_position_independent. Qed.
+Print Assumptions C03_leaf_position_independent.
+(*     ... in particular a vector or array nested in a list has, at every offset, the text it has at top level *)
+Theorem C03_nested_array_text : forall c x o cl, match x with OVec _ | OArr _ _ => True | _ => False end ->
+  append_tree (p_margin c) (ptree c x) o cl = pretty c x.
+Proof. exact nested_array_text. Qed.
+Print Assumptions C03_nested_array_text.
 (* (b) the reader does not care which white space separates lexemes: after any lexeme, on any stack, any two
        non-empty runs of blanks, tabs, newlines, returns leave the same parser state ... *)
 Theorem C03_separators_are_interchangeable : forall p s w1 w2, Lands p s -> w1 <> [] -> w2 <> [] ->
